@@ -33,7 +33,7 @@ type Config struct {
 }
 
 type Op struct {
-	Op string `json:"op"` // publish consume net storeop
+	Op string `json:"op"` // publish consume net storeop restart
 	// publish
 	Version uint64 `json:"version,omitempty"`
 	Size    int    `json:"size,omitempty"`
@@ -42,10 +42,13 @@ type Op struct {
 	// net: fault applied to the Attempt-th Interest (0-based) for segment Seg (-1 = metadata) of the next consume
 	Seg     int    `json:"seg,omitempty"`
 	Attempt int    `json:"attempt,omitempty"`
-	Act     string `json:"act,omitempty"` // drop | delay | dup | dropdata | delaydata | dupdata
+	Act     string `json:"act,omitempty"` // drop | delay | dup | dropdata | delaydata | dupdata; restart: graceful | crash
 	DelayMs int    `json:"delay_ms,omitempty"`
+	// restart: the producer process ends (graceful: stores closed; crash: whatever the store file holds at that
+	// instant is what survives) and a new producer starts on the durable state. DelayMs == 0: now; > 0: that long
+	// after the next consume has started.
 	// storeop: differential operations on both store implementations
-	SOp   string `json:"sop,omitempty"` // put remove removeprefix get getprefix
+	SOp   string `json:"sop,omitempty"` // put remove removeprefix get getprefix begin commit rollback
 	SName string `json:"sname,omitempty"`
 	SVer  uint64 `json:"sver,omitempty"`
 }
@@ -110,7 +113,13 @@ func (Engine) Generate(prop string, r *kit.Rand, tier string) *kit.Scenario[Conf
 		n := r.Range(2, 14)
 		for i := 0; i < n; i++ {
 			o := Op{Op: "storeop", SName: kit.Pick(r, names)}
-			switch r.Weighted([]int{5, 2, 1, 3, 3}) {
+			switch r.Weighted([]int{5, 2, 1, 3, 3, 1, 1, 1}) {
+			case 5:
+				o.SOp = "begin"
+			case 6:
+				o.SOp = "commit"
+			case 7:
+				o.SOp = "rollback"
 			case 0:
 				o.SOp, o.SVer = "put", uint64(r.Range(1, 5))
 			case 1:
@@ -161,7 +170,25 @@ func (Engine) Generate(prop string, r *kit.Rand, tier string) *kit.Scenario[Conf
 			sc.Ops = append(sc.Ops, Op{Op: "net", Obj: b, Seg: sb, Attempt: at, Act: "drop"})
 		}
 	}
+	// producer restart: before the fetch (durable state must serve it), or while it is running
+	if r.Chance(0.25) {
+		o := Op{Op: "restart", Act: kit.Pick(r, []string{"graceful", "crash"})}
+		if r.Chance(0.5) {
+			o.DelayMs = kit.Pick(r, []int{1, 5, 50, 500, 1100, 2500, 6000})
+		}
+		sc.Ops = append(sc.Ops, o)
+	}
 	sc.Ops = append(sc.Ops, Op{Op: "consume"})
+	if r.Chance(0.1) {
+		// a second round: publish a newer version (or restart) after the first fetch, fetch again
+		if r.Chance(0.6) {
+			sc.Ops = append(sc.Ops, Op{Op: "publish", Version: 5000 + uint64(r.Intn(50)), Size: kit.Pick(r, []int{1, 8000, 8001, 30000})})
+		}
+		if r.Chance(0.6) {
+			sc.Ops = append(sc.Ops, Op{Op: "restart", Act: kit.Pick(r, []string{"graceful", "crash"})})
+		}
+		sc.Ops = append(sc.Ops, Op{Op: "consume"})
+	}
 	return sc
 }
 
@@ -296,6 +323,47 @@ type modelStore map[string]struct {
 	wire string
 }
 
+// storeModel is the reference for the differential store operations: what is committed, and the open
+// transaction (Begin .. Commit/Rollback) if there is one.
+type storeModel struct {
+	committed modelStore
+	inTx      bool
+	pending   modelStore
+	// removals issued while the transaction was open: the on-disk store can only execute them once its single
+	// write transaction has ended (they would block for ever otherwise), the in-memory store executes them at once
+	deferredBolt []func()
+	deferredPat  []string // "name" or "name/*"
+}
+
+// removedInTx: the open transaction already removed this name (the on-disk removal is still to come)
+func (sm *storeModel) removedInTx(n string) bool {
+	for _, p := range sm.deferredPat {
+		if q, ok := strings.CutSuffix(p, "/*"); ok {
+			if n == q || strings.HasPrefix(n, q+"/") {
+				return true
+			}
+		} else if n == p {
+			return true
+		}
+	}
+	return false
+}
+
+func (sm *storeModel) endTx(commit bool) {
+	if commit {
+		for k, v := range sm.pending {
+			sm.committed[k] = v
+		}
+	}
+	sm.pending = modelStore{}
+	sm.inTx = false
+	for _, f := range sm.deferredBolt {
+		f()
+	}
+	sm.deferredBolt = nil
+	sm.deferredPat = nil
+}
+
 func (e Engine) run(ctx *kit.Ctx, sc *kit.Scenario[Config, Op], res *kit.Result, dir string) {
 	start := time.Now()
 	now := func() time.Duration { return time.Since(start) }
@@ -314,7 +382,14 @@ func (e Engine) run(ctx *kit.Ctx, sc *kit.Scenario[Config, Op], res *kit.Result,
 	if err != nil {
 		panic("harness: bolt: " + err.Error())
 	}
-	defer bolt.Close()
+	boltPath := filepath.Join(dir, "p.db")
+	var oldBolts []*object.BoltStore // handles of crashed incarnations (closed at the end)
+	defer func() {
+		bolt.Close()
+		for _, b := range oldBolts {
+			b.Close()
+		}
+	}()
 	if sc.Config.Store == "bolt" {
 		pstore = bolt
 	} else {
@@ -327,7 +402,14 @@ func (e Engine) run(ctx *kit.Ctx, sc *kit.Scenario[Config, Op], res *kit.Result,
 		panic("harness: bolt: " + err.Error())
 	}
 	defer dbolt.Close()
-	ms := modelStore{}
+	ms := &storeModel{committed: modelStore{}, pending: modelStore{}}
+	defer func() {
+		if ms.inTx { // an open write transaction would block Close
+			dmem.Commit()
+			dbolt.Commit()
+			ms.endTx(true)
+		}
+	}()
 
 	var fromP, fromC [][]byte
 	fp := &simFace{out: &fromP}
@@ -352,13 +434,63 @@ func (e Engine) run(ctx *kit.Ctx, sc *kit.Scenario[Config, Op], res *kit.Result,
 		synctest.Wait()
 	}()
 
+	published := [2]map[uint64][]byte{{}, {}}
+	newest := [2]uint64{}
+	everPublished := [2]bool{}
+	storeLost := false // the producer lost its (in-memory) store at some point of the current fetch
+	incarnation := 0
+	restart := func(act string) {
+		ctx.Fault("producer-restart-" + act + "-" + sc.Config.Store)
+		producer.Stop()
+		ep.Stop()
+		synctest.Wait()
+		if sc.Config.Store == "bolt" {
+			if act == "graceful" {
+				if err := bolt.Close(); err != nil {
+					panic("harness: bolt close: " + err.Error())
+				}
+			} else {
+				// crash: the process is gone; what the file holds now is what the next incarnation finds
+				b, err := os.ReadFile(boltPath)
+				if err != nil {
+					panic("harness: read store file: " + err.Error())
+				}
+				oldBolts = append(oldBolts, bolt)
+				incarnation++
+				boltPath = filepath.Join(dir, fmt.Sprintf("p%d.db", incarnation))
+				if err := os.WriteFile(boltPath, b, 0o600); err != nil {
+					panic("harness: write store file: " + err.Error())
+				}
+			}
+			nb, err := object.NewBoltStore(boltPath)
+			if err != nil {
+				fail("C15/store-unusable-after-restart", act, "reopening the on-disk store after a %s restart: %v", act, err)
+				nb, _ = object.NewBoltStore(filepath.Join(dir, fmt.Sprintf("fresh%d.db", incarnation)))
+			}
+			bolt = nb
+			pstore = bolt
+		} else {
+			// the in-memory store dies with the process
+			pstore = object.NewMemoryStore()
+			published = [2]map[uint64][]byte{{}, {}}
+			newest = [2]uint64{}
+			storeLost = true
+		}
+		fp = &simFace{out: &fromP}
+		ep = basic.NewEngine(fp, basic.NewTimer(), signer, check)
+		ep.Start()
+		producer = object.NewClient(ep, pstore)
+		if err := producer.Start(); err != nil {
+			panic("harness: producer restart: " + err.Error())
+		}
+	}
+	pendingRestart := []*Op{}
+
 	suffix := ""
 	for i := 1; i < sc.Config.NameDepth; i++ {
 		suffix += fmt.Sprintf("/c%d", i)
 	}
 	objNames := [2]string{"/obj" + suffix, "/objB" + suffix}
-	published := [2]map[uint64][]byte{{}, {}}
-	newest := [2]uint64{}
 	type fault struct {
 		act   string
 		delay time.Duration
@@ -404,8 +536,16 @@ func (e Engine) run(ctx *kit.Ctx, sc *kit.Scenario[Config, Op], res *kit.Result,
 				return
 			}
 			published[ob][o.Version] = content
+			everPublished[ob] = true
 			if o.Version > newest[ob] {
 				newest[ob] = o.Version
+			}
+			res.Steps++
+		case "restart":
+			if o.DelayMs > 0 {
+				pendingRestart = append(pendingRestart, o)
+			} else {
+				restart(o.Act)
 			}
 			res.Steps++
 		case "storeop":
@@ -440,11 +580,17 @@ func (e Engine) run(ctx *kit.Ctx, sc *kit.Scenario[Config, Op], res *kit.Result,
 				cerr        error
 				progress    int
 				lossBeyond  bool
+				mustFail    bool // nothing is stored under the name any more
 			}
 			var fetches []*fetch
 			maxSeg := 0
+			storeLost = false
 			for ob := 0; ob < 2; ob++ {
 				if newest[ob] == 0 {
+					if everPublished[ob] {
+						// published once, lost with the in-memory store: the fetch must end, and not in success
+						fetches = append(fetches, &fetch{obj: ob, mustFail: true, nseg: 1})
+					}
 					continue
 				}
 				f := &fetch{obj: ob, want: published[ob][newest[ob]]}
@@ -530,8 +676,19 @@ func (e Engine) run(ctx *kit.Ctx, sc *kit.Scenario[Config, Op], res *kit.Result,
 			deadline := now() + time.Duration(maxSeg/10+3)*20*time.Second + 30*time.Second
 			reordered, retrans := false, false
 			lastDeliveredSeg := [2]int{-1, -1}
-			for !allDone() && now() < deadline {
+			consumeStart := now()
+			for {
+				// quiescence first: the completion callbacks run on the client's goroutine
 				synctest.Wait()
+				if allDone() || now() >= deadline {
+					break
+				}
+				for len(pendingRestart) > 0 && now()-consumeStart >= time.Duration(pendingRestart[0].DelayMs)*time.Millisecond {
+					act := pendingRestart[0].Act
+					pendingRestart = pendingRestart[1:]
+					restart(act)
+					ctx.Probe("producer-restart-during-fetch")
+				}
 				// take what both sides sent
 				for _, f := range sortByName(fc.drain()) {
 					ob, seg, _, _ := segOf(f)
@@ -600,6 +757,10 @@ func (e Engine) run(ctx *kit.Ctx, sc *kit.Scenario[Config, Op], res *kit.Result,
 					m := queue[0]
 					queue = queue[1:]
 					delivered = true
+					if ctx != nil && ctx.Log != nil {
+						_, _, isD, nm := segOf(m.frame)
+						ctx.Logf("t=%v deliver toP=%v data=%v %s", now(), m.toP, isD, nm)
+					}
 					if m.toP {
 						fp.onPkt(enc.NewBufferReader(append([]byte(nil), m.frame...)))
 					} else {
@@ -613,6 +774,9 @@ func (e Engine) run(ctx *kit.Ctx, sc *kit.Scenario[Config, Op], res *kit.Result,
 						fc.onPkt(enc.NewBufferReader(append([]byte(nil), m.frame...)))
 					}
 					res.Steps++
+					// one delivery at a time, each run to quiescence: what the fetcher requests next depends on
+					// the order in which it sees the packets
+					synctest.Wait()
 				}
 				if delivered {
 					continue
@@ -621,6 +785,11 @@ func (e Engine) run(ctx *kit.Ctx, sc *kit.Scenario[Config, Op], res *kit.Result,
 				next := 100 * time.Millisecond
 				if len(queue) > 0 && queue[0].at-now() < next {
 					next = queue[0].at - now()
+				}
+				if len(pendingRestart) > 0 {
+					if d := consumeStart + time.Duration(pendingRestart[0].DelayMs)*time.Millisecond - now(); d < next {
+						next = d
+					}
 				}
 				if next < time.Millisecond {
 					next = time.Millisecond
@@ -642,6 +811,7 @@ func (e Engine) run(ctx *kit.Ctx, sc *kit.Scenario[Config, Op], res *kit.Result,
 			}
 			time.Sleep(20 * time.Second)
 			synctest.Wait()
+			pendingRestart = nil
 			for _, f := range fetches {
 				key := fmt.Sprintf("%s/segs=%d", sc.Config.Store, min(f.nseg, 3))
 				if len(fetches) == 2 {
@@ -652,13 +822,16 @@ func (e Engine) run(ctx *kit.Ctx, sc *kit.Scenario[Config, Op], res *kit.Result,
 					fail("C15/fetch-never-completes", key, "no completion (success or error) of %s %v after the fetch started; %d progress callbacks, %d of %d bytes", objNames[f.obj], now(), f.progress, len(f.got), len(f.want))
 				case f.completions > 1:
 					fail("C15/completion-reported-twice", key, "completion callback of %s reported %d times", objNames[f.obj], f.completions)
+				case f.mustFail && f.cerr == nil:
+					fail("C15/served-after-store-lost", key, "fetch of %s succeeded with %d bytes although the producer's in-memory store was lost with the process and nothing was published since", objNames[f.obj], len(f.got))
+				case f.mustFail:
 				case f.cerr == nil && !bytes.Equal(f.got, f.want):
 					at := 0
 					for at < len(f.got) && at < len(f.want) && f.got[at] == f.want[at] {
 						at++
 					}
 					fail("C15/content-differs", key, "fetch of %s reported success with %d bytes, newest version v=%d has %d bytes; first difference at offset %d (reordered=%v retransmitted=%v)", objNames[f.obj], len(f.got), newest[f.obj], len(f.want), at, reordered, retrans)
-				case f.cerr != nil && !f.lossBeyond:
+				case f.cerr != nil && !f.lossBeyond && !storeLost:
 					fail("C15/fetch-failed-within-retry-budget", key, "fetch of %s (v=%d, %d segments) failed with %v although no name lost more than 3 transmissions", objNames[f.obj], newest[f.obj], f.nseg, f.cerr)
 				}
 				if f.cerr == nil {
@@ -681,7 +854,16 @@ func (e Engine) run(ctx *kit.Ctx, sc *kit.Scenario[Config, Op], res *kit.Result,
 	ctx.State(res.Digest)
 }
 
-func (e Engine) storeOp(ctx *kit.Ctx, o *Op, mem *object.MemoryStore, bolt *object.BoltStore, ms modelStore, fail func(class, key, format string, a ...any)) {
+func (e Engine) storeOp(ctx *kit.Ctx, o *Op, mem *object.MemoryStore, bolt *object.BoltStore, sm *storeModel, fail func(class, key, format string, a ...any)) {
+	ms := sm.committed
+	pendingUnder := func(n string, prefix bool) bool {
+		for k := range sm.pending {
+			if k == n || (prefix && strings.HasPrefix(k, n+"/")) {
+				return true
+			}
+		}
+		return false
+	}
 	name := mkName(o.SName)
 	wire := []byte(fmt.Sprintf("wire-of-%s-v%d", o.SName, o.SVer))
 	get := func(prefix bool) (string, string) {
@@ -693,26 +875,70 @@ func (e Engine) storeOp(ctx *kit.Ctx, o *Op, mem *object.MemoryStore, bolt *obje
 		return string(a), string(b)
 	}
 	switch o.SOp {
+	case "begin":
+		if !sm.inTx {
+			mem.Begin()
+			bolt.Begin()
+			sm.inTx = true
+			ctx.Probe("store/transaction")
+		}
+	case "commit":
+		if sm.inTx {
+			mem.Commit()
+			bolt.Commit()
+			sm.endTx(true)
+		}
+	case "rollback":
+		if sm.inTx {
+			mem.Rollback()
+			bolt.Rollback()
+			sm.endTx(false)
+			ctx.Probe("store/rollback")
+		}
 	case "put":
+		if sm.inTx && sm.removedInTx(o.SName) {
+			return // keeps the comparison between the two stores unambiguous (see deferredBolt)
+		}
 		mem.Put(name, o.SVer, wire)
 		bolt.Put(name, o.SVer, wire)
-		ms[o.SName] = struct {
+		rec := struct {
 			ver  uint64
 			wire string
 		}{o.SVer, string(wire)}
-	case "remove":
-		mem.Remove(name, false)
-		bolt.Remove(name, false)
-		delete(ms, o.SName)
-	case "removeprefix":
-		mem.Remove(name, true)
-		bolt.Remove(name, true)
+		if sm.inTx {
+			sm.pending[o.SName] = rec
+		} else {
+			ms[o.SName] = rec
+		}
+	case "remove", "removeprefix":
+		prefix := o.SOp == "removeprefix"
+		if sm.inTx {
+			// a removal while a transaction is open (another user of the store while an object is being
+			// produced): only of names the transaction has not written, so that the outcome is unambiguous
+			if pendingUnder(o.SName, prefix) {
+				return
+			}
+			ctx.Probe("store/remove-during-transaction")
+			mem.Remove(name, prefix)
+			sm.deferredBolt = append(sm.deferredBolt, func() { bolt.Remove(name, prefix) })
+			if prefix {
+				sm.deferredPat = append(sm.deferredPat, o.SName+"/*")
+			} else {
+				sm.deferredPat = append(sm.deferredPat, o.SName)
+			}
+		} else {
+			mem.Remove(name, prefix)
+			bolt.Remove(name, prefix)
+		}
 		for k := range ms {
-			if k == o.SName || strings.HasPrefix(k, o.SName+"/") {
+			if k == o.SName || (prefix && strings.HasPrefix(k, o.SName+"/")) {
 				delete(ms, k)
 			}
 		}
 	case "get":
+		if sm.inTx && (pendingUnder(o.SName, false) || len(sm.deferredBolt) > 0) {
+			return // visibility of uncommitted writes is not specified
+		}
 		a, b := get(false)
 		want := ms[o.SName].wire
 		if a != want {
@@ -722,6 +948,9 @@ func (e Engine) storeOp(ctx *kit.Ctx, o *Op, mem *object.MemoryStore, bolt *obje
 			fail("C15/store-get-wrong", "bolt/exact", "bolt Get(%s) = %q, want %q", o.SName, b, want)
 		}
 	case "getprefix":
+		if sm.inTx && (pendingUnder(o.SName, true) || len(sm.deferredBolt) > 0) {
+			return
+		}
 		a, b := get(true)
 		// acceptable: any stored packet under the prefix that has the maximal version; none if none is stored
 		maxV := uint64(0)
